@@ -88,7 +88,7 @@ theorem BM_forNames (f : State V → Name → State V × Bool) (hf : ∀ s n, BM
       · exact h
       · exact BM.trans h (ih s1)
 
-theorem BM_standardComplex (A : Arith V) (cfg : Cfg) (s : State V) : BM s (standardComplex A cfg s).1 := by
+theorem BM_standardComplex (A : Arith V) (cfg : Cfg) (s : State V) (bd : List Name) : BM s (standardComplex A cfg s bd).1 := by
   unfold standardComplex
   apply BM_forNames
   intro s k
@@ -320,8 +320,8 @@ theorem dkeys_mem_of_dget {β : Type} (d : Dict β) (k : Name) (v : β) (h : dge
       exact Or.inr (ih h)
 
 /-- `standard_complex` writes only into components of complex parameters -/
-theorem HF_standardComplex (A : Arith V) (cfg : Cfg) (c : Nat) (s : State V) (h : NotCplxPart s c) :
-    HF c s (standardComplex A cfg s).1 := by
+theorem HF_standardComplex (A : Arith V) (cfg : Cfg) (c : Nat) (s : State V) (bd : List Name) (h : NotCplxPart s c) :
+    HF c s (standardComplex A cfg s bd).1 := by
   unfold standardComplex
   apply HF_forNames_cells c _ s (dkeys s.cplx) _ s (fun _ => rfl)
   intro s' k hk hs'
@@ -465,13 +465,13 @@ structure Matches (A : Arith V) (s s' : State V) (r : FitResult V) (stdc : Bool)
     readN s' p.1 = some (y p.1 p.2)
   ndf : r.ndf = x.length
 
-theorem finish_facts (A : Arith V) (cfg : Cfg) (stdc : Bool) (t : State V) (o : Oracle V) :
-    (finish A cfg stdc t o).2 = .ok ⟨getAllDic A (finish A cfg stdc t o).1 false, o.fval, o.x.length, o.success⟩ ∧
-    (finish A cfg stdc t o).1.skel = t.skel ∧ BM t (finish A cfg stdc t o).1 ∧
-    ∀ c, (stdc = true → NotCplxPart t c) → HF c t (finish A cfg stdc t o).1 := by
+theorem finish_facts (A : Arith V) (cfg : Cfg) (stdc : Bool) (t : State V) (o : Oracle V) (bd : List Name) :
+    (finish A cfg stdc t o bd).2 = .ok ⟨getAllDic A (finish A cfg stdc t o bd).1 false, o.fval, o.x.length, o.success⟩ ∧
+    (finish A cfg stdc t o bd).1.skel = t.skel ∧ BM t (finish A cfg stdc t o bd).1 ∧
+    ∀ c, (stdc = true → NotCplxPart t c) → HF c t (finish A cfg stdc t o bd).1 := by
   cases stdc
   · exact ⟨rfl, rfl, BM.refl t, fun c _ => HF.refl c t⟩
-  · exact ⟨rfl, standardComplex_skel A cfg t, BM_standardComplex A cfg t, fun c h => HF_standardComplex A cfg c t (h rfl)⟩
+  · exact ⟨rfl, standardComplex_skel A cfg t bd, BM_standardComplex A cfg t bd, fun c h => HF_standardComplex A cfg c t bd (h rfl)⟩
 
 theorem cellOf_of_skel {s t : State V} (h : t.skel = s.skel) (n : Name) : cellOf t n = cellOf s n := by
   unfold cellOf; rw [((skel_eq_iff t s).1 h).1]
@@ -482,14 +482,14 @@ theorem finish_matches (A : Arith V) (cfg : Cfg) (stdc : Bool) (s s2 t : State V
     (hsk : s2.skel = s.skel) (hmask : s2.mask = []) (hcplx : s2.cplx = s.cplx)
     (hfix : ∀ c, FixedCell s c → HF c s s2)
     (hw : ∀ p ∈ s.trainable.zip o.x, readN s2 p.1 = some (y p.1 p.2))
-    (ht : t.skel = s2.skel ∧ t.heap = s2.heap ∧ t.mask = s2.mask ∧ t.cplx = s2.cplx) :
-    ∃ r, (finish A cfg stdc t o).2 = .ok r ∧ Matches A s (finish A cfg stdc t o).1 r stdc y o.x := by
-  obtain ⟨h1, h2, h3, h4⟩ := finish_facts A cfg stdc t o
+    (ht : t.skel = s2.skel ∧ t.heap = s2.heap ∧ t.mask = s2.mask ∧ t.cplx = s2.cplx) (bd : List Name) :
+    ∃ r, (finish A cfg stdc t o bd).2 = .ok r ∧ Matches A s (finish A cfg stdc t o bd).1 r stdc y o.x := by
+  obtain ⟨h1, h2, h3, h4⟩ := finish_facts A cfg stdc t o bd
   refine ⟨_, h1, ?_⟩
-  have hsk' : (finish A cfg stdc t o).1.skel = s.skel := h2.trans (ht.1.trans hsk)
+  have hsk' : (finish A cfg stdc t o bd).1.skel = s.skel := h2.trans (ht.1.trans hsk)
   have hts : t.skel = s.skel := ht.1.trans hsk
   obtain ⟨e1, e2, e3, _⟩ := (skel_eq_iff _ _).1 hsk'
-  have hm' : (finish A cfg stdc t o).1.mask = [] := by rw [h3.2, ht.2.2.1, hmask]
+  have hm' : (finish A cfg stdc t o bd).1.mask = [] := by rw [h3.2, ht.2.2.1, hmask]
   have hncp : ∀ c, NotCplxPart s c → NotCplxPart t c := by
     intro c h k hk
     rw [ht.2.2.2, hcplx] at hk
